@@ -66,3 +66,38 @@ def fen_sweep(binary, strings):
                 fl = l[5:].split(" ")[:4]
         evs.append({"ev": "ufen", "fen": list(x), "acc": bool(fl), "fl": fl, "died": False})
     return evs
+
+
+def divide(binary, fen, depth):
+    """`rustybait perft <depth> "<fen>"` -> divide event (C01 through the command line)"""
+    import subprocess
+    try:
+        p = subprocess.run([binary, "perft", str(depth), fen], capture_output=True, text=True, timeout=300)
+    except subprocess.TimeoutExpired:
+        return {"ev": "divide", "fen": list(fen), "d": depth, "lines": [], "total": -1, "died": True}
+    lines = []
+    total = -1
+    for l in p.stdout.splitlines():
+        if ": " in l:
+            a, b = l.split(": ", 1)
+            if b.strip().isdigit():
+                lines.append([a.strip(), int(b)])
+        elif l.strip().isdigit():
+            total = int(l.strip())
+    return {"ev": "divide", "fen": list(fen), "d": depth, "lines": lines, "total": total, "died": p.returncode != 0}
+
+
+def selfplay(binary, polls, timeout=240):
+    """`rustybait auto` with every search cut after `polls` node polls (hook) -> selfplay event with the FEN of every ply"""
+    import subprocess
+    env = dict(os.environ, VERIF_STOP_AFTER=str(polls))
+    try:
+        p = subprocess.run([binary, "auto", "100000000"], capture_output=True, text=True, timeout=timeout, env=env)
+        out, err, rc, hung = p.stdout, p.stderr, p.returncode, False
+    except subprocess.TimeoutExpired as ex:
+        out = ex.stdout.decode(errors="replace") if isinstance(ex.stdout, bytes) else (ex.stdout or "")
+        err = ex.stderr.decode(errors="replace") if isinstance(ex.stderr, bytes) else (ex.stderr or "")
+        rc, hung = -999, True
+    fens = [l[5:] for l in out.splitlines() if l.startswith("Fen: ")]
+    return {"ev": "selfplay", "polls": polls, "rc": rc, "hung": hung, "plies": max(0, len(fens) - 1), "fens": [list(f) for f in fens],
+            "panic": ("panicked" in err) or rc != 0, "msg": " | ".join(l for l in err.splitlines() if "panicked" in l or "assert" in l)[:300]}
